@@ -234,7 +234,9 @@ func newDateAbs(e *Env) *dateAbs {
 		return fmt.Sprintf("time.Date(%v,%v,%v,0,0,0,0,*time.UTC)", a.wantY(p), a.wantM(p), a.wantD(p))
 	}
 	a.canonTime = func(p string) string {
-		return fmt.Sprintf("time.Date(sext(%s.year+1 mod 2^32),zext(%s.month+1 mod 2^8),zext(%s.day+1 mod 2^8),0,0,0,0,*time.UTC)", p, p, p)
+		// on a 64-bit target: time.Date(sext(p.year+1 mod 2^32),zext(p.month+1 mod 2^8),zext(p.day+1 mod 2^8),…); the
+		// widening of the year disappears where int is 32 bits wide
+		return fmt.Sprintf("time.Date(%v,%v,%v,0,0,0,0,*time.UTC)", canonVal(a.wantY(p)), canonVal(a.wantM(p)), canonVal(a.wantD(p)))
 	}
 	return a
 }
